@@ -385,6 +385,15 @@ func runWorker(cfg *config, job *Job, from, to, stride uint64, deadline time.Tim
 	case killed:
 		jr.infra = append(jr.infra, fmt.Sprintf("watchdog: worker made no progress for 300 s in run %d of job %s (seed %d)", inflight, job.Name, job.Seed))
 		return 0, true
+	case code == 5 && inflight >= 0:
+		// every live task is parked in a channel / Cond / WaitGroup operation and
+		// nobody is left to wake them: calls that return when run alone do not
+		// return under this schedule
+		jr.failures = append(jr.failures, failure{job: job, run: uint64(inflight), procFrom: from, stride: stride,
+			viol: plan.Violation{Property: cfg.prop, Class: cfg.prop + "/unbounded-wait", Key: "parked",
+				Detail: "every live task is parked in a channel / sync.Cond / sync.WaitGroup operation and no task is left that could wake them (the calls complete when run alone)"}})
+		jr.runs++
+		return uint64(inflight) + stride, false
 	case code == 4 && inflight >= 0:
 		// the run blocked inside a primitive the simulator does not own
 		jr.stalls = append(jr.stalls, uint64(inflight))
@@ -844,6 +853,11 @@ func execPlan(cfg *config, v Variant, race bool, p *plan.Plan, tag string) (viol
 			code = ee.ExitCode()
 		}
 		text := stderr.String()
+		if code == 5 {
+			viols = append(viols, plan.Violation{Property: p.Property, Class: p.Property + "/unbounded-wait", Key: "parked",
+				Detail: "every live task is parked in a channel / sync.Cond / sync.WaitGroup operation and no task is left that could wake them"})
+			return viols, res, ""
+		}
 		if code == 66 {
 			if rv, ok := classifyRace(text, p.Property); ok {
 				viols = append(viols, rv)
